@@ -202,15 +202,23 @@ class Builder(object):
             inner = []
             if self.log is not None:
                 inner.append(spy(here + '/in', self.log))
+            # the inner pipeline is given as a Python list, and the SAME list object has been used before to build another operator
+            # (an aggregation shared by two groupings): the caller's list is an argument, not scratch space
             if n == 'group_by':
                 inner += self.pipe(st[2], here)
-                return [rs.ops.group_by(fn1(st[1]), inner or [rs.ops.identity()])]
+                lst = inner or [rs.ops.identity()]
+                rs.ops.group_by(lambda i: 0, lst)
+                return [rs.ops.group_by(fn1(st[1]), lst)]
             if n == 'roll':
                 inner += self.pipe(st[3], here)
-                return [rs.data.roll(st[1], st[2], inner or [rs.ops.identity()])]
+                lst = inner or [rs.ops.identity()]
+                rs.data.roll(st[1] + 1, st[2], lst)
+                return [rs.data.roll(st[1], st[2], lst)]
             if n == 'split':
                 inner += self.pipe(st[2], here)
-                return [rs.data.split(fn1(st[1]), inner or [rs.ops.identity()])]
+                lst = inner or [rs.ops.identity()]
+                rs.data.split(lambda i: 0, lst)
+                return [rs.data.split(fn1(st[1]), lst)]
             cfg = st[1]
             inner += self.pipe(st[2], here)
             closing = fn1(cfg['closing']) if cfg.get('closing') is not None else None
@@ -236,6 +244,7 @@ class Builder(object):
             for b, bp in enumerate(st[2]):
                 ops = self.pipe(bp, '%s/b%d' % (here, b))
                 branches.append(ops or [rs.ops.identity()])
+            rs.ops.tee_map(*branches, join='merge')     # the same branch lists used for another tee_map before
             return [rs.ops.tee_map(*branches, join=st[1])]
         raise ValueError('stage %r' % (st,))
 
